@@ -3,7 +3,7 @@ import json, os, time, concurrent.futures
 from common import *
 import tlcout
 
-FIRE = ["F_hcomm", "F_hidem", "F_gg", "F_hf", "F_lamh", "F_glam", "F_hag", "F_fswap"]
+FIRE = ["F_hcomm", "F_hidem", "F_gg", "F_hf", "F_lamh", "F_glam", "F_hag", "F_fswap", "F_hfp", "F_hfv", "F_hfpb"]
 
 
 def fire_table(name, maxeqs, tag):
@@ -34,7 +34,7 @@ def run_c04(tier):
         recs = jsonl(run_bin("default", "fire_replay", [os.path.join(UNIV, name + ".json"), tpath, ncpu()]))
         summaries += [r for r in recs if r["kind"] == "summary"]
         findings += [r for r in recs if r["kind"] == "finding"]
-    u0 = tabs[3][1]
+    u0 = [t for t in tabs if t[0] == 'F_hf'][0][1]
     i0 = u0["instances"][0]
     cov = {"states": sum(t[3]["distinct"] for t in tabs), "transitions": sum(t[3]["generated"] for t in tabs),
            "traces_validated_against_impl": sum(s["runs"] for s in summaries),
